@@ -170,6 +170,9 @@ fn part_a(args: &Args, shard: u64, m: &mut Monitor) {
                     json!({"shard": shard, "round": round, "what": what, "tokens": sel, "now": now,
                            "max_age": s.max_age, "max_range": s.max_range, "max_future": s.max_future, "extra": extra})
                 };
+                if m.wants_sample() && round % 11 == 3 {
+                    m.sample(wit("accepted set_prices re-derived from report fields", json!({"feed_swapped": swapped_feed})));
+                }
                 if !pre_oracle_cleared {
                     m.violation("C24:set_prices:accepted_although_prices_already_set", wit("oracle was not cleared", json!({})));
                 }
